@@ -21,6 +21,10 @@ abbrev Line := List UInt8
 
 def seedOf (n : Nat) : UInt64 := UInt64.ofNat n
 
+/-- cache: RangeFields + `HashWithSeed`, a chain of MurmurHash64A that starts at `cacheSeed`. -/
+def cacheKey (ranges : List FieldRange) (delim : UInt8) (l : Line) : Nat :=
+  (PV.Murmur.hashPieces (seedOf PV.Gen.cacheSeed) (PV.Fields.rangeFields l ranges delim)).toNat
+
 /-- dedupe: whole line (`Dedupe`) when the key is the single open range from field 1, else
     `FieldDedupe` (RangeFields + HashCallback(1)). -/
 def dedupeKey (ranges : List FieldRange) (delim : UInt8) (l : Line) : Nat :=
